@@ -81,3 +81,233 @@ def limiter_clause(vals, limiter, clause):
         ra = float(f(a, a))
         return abs(ra - a) <= abs(a) * (1e-20 / a ** 2 + 8 * U)
     raise ValueError(clause)
+
+
+# --------------------------------------------------------------------------------------
+# models and physical fluxes in floats (independent of the flowdyn formulas)
+
+def build_model(kind, vals, source=None, sectionlaw=None):
+    if kind == "convection":
+        import flowdyn.modelphy.convection as conv
+        return conv.model(num(vals.get("a"), 1.5))
+    if kind == "burgers":
+        import flowdyn.modelphy.burgers as bu
+        return bu.model()
+    if kind == "shallowwater":
+        import flowdyn.modelphy.shallowwater as sw
+        return sw.shallowwater1d(g=num(vals.get("g"), 9.81), source=source)
+    import flowdyn.modelphy.euler as eu
+    g = num(vals.get("gamma"), 1.4)
+    if kind == "euler1d":
+        return eu.euler1d(gamma=g, source=source)
+    if kind == "nozzle":
+        return eu.nozzle(sectionlaw or (lambda x: 1 + 0 * x), gamma=g, source=source)
+    if kind == "euler2d":
+        return eu.euler2d(gamma=g, source=source)
+    raise ValueError(kind)
+
+
+NCOMP = {"convection": 1, "burgers": 1, "shallowwater": 2, "euler1d": 3, "nozzle": 3, "euler2d": 4}
+DEFAULT_STATE = {"convection": [1.0], "burgers": [1.0], "shallowwater": [1.0, 0.5], "euler1d": [1.0, 0.5, 1.0],
+                 "nozzle": [1.0, 0.5, 1.0], "euler2d": [1.0, 0.5, 0.25, 1.0]}
+
+
+def state_from(vals, tag, kind):
+    d = DEFAULT_STATE[kind]
+    return [num(vals.get("%s%d" % (tag, k)), d[k]) for k in range(NCOMP[kind])]
+
+
+def to_pdata(kind, W):
+    """flat float state -> flowdyn primitive data list with arrays of length 1"""
+    if kind == "euler2d":
+        return [np.array([W[0]]), np.array([[W[1]], [W[2]]]), np.array([W[3]])]
+    return [np.array([w]) for w in W]
+
+
+def flat(F):
+    out = []
+    for f in F:
+        f = np.asarray(f, dtype=float)
+        if f.ndim == 2:
+            out.extend([float(f[0, 0]), float(f[1, 0])])
+        else:
+            out.append(float(f.reshape(-1)[0]))
+    return out
+
+
+def phys_flux(kind, W, vals, normal=None):
+    if kind == "convection":
+        return [num(vals.get("a"), 1.5) * W[0]]
+    if kind == "burgers":
+        return [W[0] ** 2 / 2]
+    if kind == "shallowwater":
+        g = num(vals.get("g"), 9.81)
+        h, u = W
+        return [h * u, h * u * u + g * h * h / 2]
+    g = num(vals.get("gamma"), 1.4)
+    if kind in ("euler1d", "nozzle"):
+        r, u, p = W
+        H = g / (g - 1) * p / r + u * u / 2
+        return [r * u, r * u * u + p, r * u * H]
+    r, ux, uy, p = W
+    nx, ny = normal
+    un = ux * nx + uy * ny
+    H = g / (g - 1) * p / r + (ux * ux + uy * uy) / 2
+    return [r * un, r * un * ux + p * nx, r * un * uy + p * ny, r * un * H]
+
+
+PARITY = {"convection": [-1], "burgers": [1], "shallowwater": [-1, 1], "euler1d": [-1, 1, -1],
+          "nozzle": [-1, 1, -1], "euler2d": [-1, 1, 1, -1]}
+
+
+def mirror_W(kind, W):
+    if kind == "convection":
+        return list(W)
+    if kind == "burgers":
+        return [-W[0]]
+    if kind == "shallowwater":
+        return [W[0], -W[1]]
+    if kind == "euler2d":
+        return [W[0], -W[1], -W[2], W[3]]
+    return [W[0], -W[1], W[2]]
+
+
+def numflux(model, kind, flux, WL, WR, normal):
+    pL, pR = to_pdata(kind, WL), to_pdata(kind, WR)
+    if kind == "euler2d":
+        d = np.array([[normal[0]], [normal[1]]], dtype=np.int8)
+        return flat(model.numflux(flux, pL, pR, d))
+    return flat(model.numflux(flux, pL, pR))
+
+
+def roe_speeds(kind, WL, WR, vals, normal):
+    if kind == "shallowwater":
+        g = num(vals.get("g"), 9.81)
+        hL, uL = WL
+        hR, uR = WR
+        cL, cR = math.sqrt(g * hL), math.sqrt(g * hR)
+        w = math.sqrt(hR / hL)
+        ut = (uL + w * uR) / (1 + w)
+        ct = math.sqrt(g * (hL + hR) / 2)
+        return uL - cL, uL + cL, uR - cR, uR + cR, ut - ct, ut + ct
+    g = num(vals.get("gamma"), 1.4)
+    if kind == "euler2d":
+        rL, uxL, uyL, pL = WL
+        rR, uxR, uyR, pR = WR
+        nx, ny = normal
+        unL, unR = uxL * nx + uyL * ny, uxR * nx + uyR * ny
+        qL2, qR2 = uxL ** 2 + uyL ** 2, uxR ** 2 + uyR ** 2
+    else:
+        rL, unL, pL = WL
+        rR, unR, pR = WR
+        qL2, qR2 = unL ** 2, unR ** 2
+    cL, cR = math.sqrt(g * pL / rL), math.sqrt(g * pR / rR)
+    HL, HR = g * pL / rL / (g - 1) + qL2 / 2, g * pR / rR / (g - 1) + qR2 / 2
+    w = math.sqrt(rR / rL)
+    un = (unL + w * unR) / (1 + w)
+    Ht = (HL + w * HR) / (1 + w)
+    if kind == "euler2d":
+        q2 = ((uxL + w * uxR) / (1 + w)) ** 2 + ((uyL + w * uyR) / (1 + w)) ** 2
+    else:
+        q2 = un * un
+    ct = math.sqrt((g - 1) * (Ht - q2 / 2))
+    return unL - cL, unL + cL, unR - cR, unR + cR, un - ct, un + ct
+
+
+def flux_clause(vals, kind, flux, clause, comp=None, normal=None):
+    """C02 clauses evaluated on the real numflux"""
+    model = build_model(kind, vals)
+    normal = tuple(normal) if normal else None
+    WL, WR = state_from(vals, "WL", kind), state_from(vals, "WR", kind)
+    admissible = True
+    if kind == "shallowwater":
+        admissible = WL[0] > 0 and WR[0] > 0
+    if kind in ("euler1d", "nozzle"):
+        admissible = WL[0] > 0 and WR[0] > 0 and WL[2] > 0 and WR[2] > 0
+    if kind == "euler2d":
+        admissible = WL[0] > 0 and WR[0] > 0 and WL[3] > 0 and WR[3] > 0
+    if not admissible:
+        return True
+    if clause == "consistency":
+        F = numflux(model, kind, flux, WL, WL, normal)
+        ref = phys_flux(kind, WL, vals, normal)
+        show(kind=kind, flux=flux, clause=clause, W=WL, F=F, physical=ref)
+        return close(F, ref)
+    if clause == "mirror":
+        F = numflux(model, kind, flux, WL, WR, normal)
+        m2 = model
+        if kind == "convection":
+            m2 = build_model(kind, dict(vals, a=-num(vals.get("a"), 1.5)))
+        Fm = numflux(m2, kind, flux, mirror_W(kind, WR), mirror_W(kind, WL), normal)
+        ref = [s * f for s, f in zip(PARITY[kind], F)]
+        show(kind=kind, flux=flux, clause=clause, WL=WL, WR=WR, F=F, F_mirrored=Fm, expected=ref)
+        return close(Fm, ref)
+    if clause in ("upwindL", "upwindR"):
+        side = clause[-1]
+        if kind == "convection":
+            a = num(vals.get("a"), 1.5)
+            hyp = a > 0 if side == "L" else a < 0
+        elif kind == "burgers":
+            hyp = (WL[0] > 0 and WR[0] > 0) if side == "L" else (WL[0] < 0 and WR[0] < 0)
+        else:
+            lm, lp, rm, rp, tm, tp = roe_speeds(kind, WL, WR, vals, normal)
+            hyp = (lm > 0 and rm > 0 and tm > 0) if side == "L" else (lp < 0 and rp < 0 and tp < 0)
+        if not hyp:
+            return True
+        F = numflux(model, kind, flux, WL, WR, normal)
+        ref = phys_flux(kind, WL if side == "L" else WR, vals, normal)
+        show(kind=kind, flux=flux, clause=clause, WL=WL, WR=WR, F=F, upwind_flux=ref)
+        return close(F, ref)
+    raise ValueError(clause)
+
+
+def _hllc_speeds(model, WL, WR):
+    g = model.gamma
+    a = np.array
+    rhoL, unL, pl, rhoR, unR, pr = a([WL[0]]), a([WL[1]]), a([WL[2]]), a([WR[0]]), a([WR[1]]), a([WR[2]])
+    cL2, cR2 = g * pl / rhoL, g * pr / rhoR
+    HL, HR = cL2 / (g - 1) + 0.5 * unL ** 2, cR2 / (g - 1) + 0.5 * unR ** 2
+    Rrho, uRoe, cRoe = model._Roe_average(rhoL, unL, HL, rhoR, unR, HR)
+    sL = np.minimum(uRoe - cRoe, unL - np.sqrt(cL2))
+    sR = np.maximum(uRoe + cRoe, unR + np.sqrt(cR2))
+    sM = (pl - pr - rhoL * unL * (sL - unL) + rhoR * unR * (sR - unR)) / (rhoR * (sR - unR) - rhoL * (sL - unL))
+    return float(sL[0]), float(sM[0]), float(sR[0])
+
+
+_orig_flux_clause = flux_clause
+
+
+def flux_clause(vals, kind, flux, clause, comp=None, normal=None):
+    if clause != "mirror-at-contact-zero":
+        return _orig_flux_clause(vals, kind, flux, clause, comp, normal)
+    # The solver's model has an outer wave speed of one sign and the contact speed of the other.
+    # Galilean shift (bisection + scan of neighbouring doubles) to a contact speed of exactly
+    # zero, then evaluate the statement's mirror clause on the real flux.
+    model = build_model(kind, vals)
+    WL, WR = state_from(vals, "WL", kind), state_from(vals, "WR", kind)
+    sL, sM, sR = _hllc_speeds(model, WL, WR)
+    show(WL=WL, WR=WR, sL=sL, sM=sM, sR=sR)
+    sh = lambda V: ([WL[0], WL[1] + V, WL[2]], [WR[0], WR[1] + V, WR[2]])
+    lo, hi = -sM - 1e-3 * (abs(sM) + 1), -sM + 1e-3 * (abs(sM) + 1)
+    if not (_hllc_speeds(model, *sh(lo))[1] < 0 <= _hllc_speeds(model, *sh(hi))[1]):
+        return _orig_flux_clause(vals, kind, flux, "mirror", comp, normal)
+    for _ in range(200):
+        mid = (lo + hi) / 2
+        if _hllc_speeds(model, *sh(mid))[1] < 0:
+            lo = mid
+        else:
+            hi = mid
+    v = lo
+    for _ in range(64):
+        v = np.nextafter(v, -np.inf)
+    for _ in range(4000):
+        a, b = sh(v)
+        s = _hllc_speeds(model, a, b)
+        if s[1] == 0.0 and (s[0] >= 0 or s[2] <= 0):
+            vv = dict(vals)
+            for k in range(3):
+                vv["WL%d" % k], vv["WR%d" % k] = repr(float(a[k])), repr(float(b[k]))
+            print("  shifted to contact speed exactly 0: sL=%r sM=%r sR=%r" % s)
+            return _orig_flux_clause(vv, kind, flux, "mirror", comp, normal)
+        v = np.nextafter(v, np.inf)
+    return _orig_flux_clause(vals, kind, flux, "mirror", comp, normal)
